@@ -49,8 +49,13 @@ TClone == /\ Is("Clone") /\ Adv
           /\ SemEq(Ev.cl2, Ev.val) /\ SemEq(Ev.after2, Ev.cl2)
 \* the same instance cloning the same value in several goroutines at once: every clone equal to the original, no two clones share storage
 TCloneConc == Is("CloneConc") /\ Adv /\ Ev.bad = 0 /\ Ev.sharedpairs = 0
+\* a sequence compared with a proper prefix of itself (the two share their backing array): equality is decided by content
+\* and length, symmetrically, and a hash may only agree when they are equal ... never required to differ
+TEqAlias == /\ Is("EqAlias") /\ Adv
+            /\ Ev.ab = SemEq(Ev.a, Ev.b) /\ Ev.ba = SemEq(Ev.b, Ev.a)
+            /\ (SemEq(Ev.a, Ev.b) => Ev.hasheq)
 TCase == Is("Case") /\ Adv
-TNext == (TCase \/ TEq \/ THash \/ TOrd \/ TSort \/ TClone \/ TCloneConc) /\ UNCHANGED tvars4
+TNext == (TCase \/ TEq \/ THash \/ TOrd \/ TSort \/ TClone \/ TCloneConc \/ TEqAlias) /\ UNCHANGED tvars4
 Z == [t |-> "int", n |-> 0]
 TInit == l = 1 /\ vu = 1 /\ va = Z /\ vb = Z /\ vc = Z
 TSpec == TInit /\ [][TNext]_<<l, tvars4>>
